@@ -16,6 +16,7 @@
 # limitations under the License.
 # -----------------------------------------------------------------------------
 import logging
+import struct
 import typing
 import secrets
 import time
@@ -109,7 +110,7 @@ class SvsInst:
             return
         try:
             remote_sv_pkt = StateVecWrapper.parse(name[-2]).val
-        except (enc.DecodeError, IndexError) as e:
+        except (enc.DecodeError, IndexError, ValueError, TypeError, struct.error) as e:
             self.logger.error('Unable to decode state vector [%s]: %s', enc.Name.to_str(name), e)
             return
 
@@ -121,7 +122,8 @@ class SvsInst:
         # Compare state vectors
         rsv_dict = {}
         for rsv in remote_sv:
-            if not rsv.node_id:
+            if not rsv.node_id or rsv.seq_no is None:
+                # Ignore incomplete entries
                 continue
             rsv_id = enc.Name.to_bytes(rsv.node_id)
             rsv_seq = rsv.seq_no
